@@ -61,7 +61,8 @@ pub fn make_case(class: u64, idx: u64, seed: u64) -> Case {
             }
         }
         _ => {
-            let n = r.range(1, 200) as usize;
+            // now and then more submissions in one session than a 16-bit counter holds
+            let n = if idx % 1000 == 999 { 65_536 + r.range(1, 500) as usize } else { r.range(1, 200) as usize };
             let mut last = (r.u16(), r.u16());
             for _ in 0..n {
                 ops.push(match r.below(12) {
